@@ -304,7 +304,9 @@ def rand_transform(rng, name, g, groups=1, parameter=True):
             t = cls(g, groups=groups, stride=rng.choice([1, 2, 3]))
         else:
             # coarse parameter lattice (stride > 1), buffer resized to the grid or kept coarse
-            t = cls(g, groups=groups, stride=rng.choice([1, 2, 2, 3]), resize=rng.random() < 0.5)
+            # (a buffer with a single sample along an axis is degenerate: Grid.reshape to one sample cannot align corners)
+            smax = min(int(v) for v in g.size()) - 1
+            t = cls(g, groups=groups, stride=min(rng.choice([1, 2, 2, 3]), smax), resize=rng.random() < 0.5)
         with torch.no_grad():
             t.params.copy_(r(*t.params.shape, lo=-0.12, hi=0.12))
         return t
@@ -418,6 +420,37 @@ def oracle(p):
                         dd = float((y - ref).abs().max())
                         if dd > tol:
                             fail("C06:GenericSpatialTransform.forward:order", f"GenericSpatialTransform({model!r}, {aff!r}) differs from its members applied in listed order by {dd:.3g}", model=model, aff=aff)
+                except Exception as e:  # noqa
+                    fail(f"C06:GenericSpatialTransform:raises:{type(e).__name__}", f"GenericSpatialTransform({model!r}, {aff!r}, D={D}) raises {type(e).__name__}: {str(e)[:160]}", model=model, aff=aff, D=D)
+        # parameters given as a Mapping {member name: tensor}: same map as the members holding those tensors
+        for D in (2, 3):
+            for model, aff in (("Affine", "TRS"), ("Affine o DDF", "TK"), ("SVF", "T")):
+                g = rgrid(rng, D, ac=True)
+                try:
+                    cfg = TransformConfig(transform=model, affine_model=aff, scaling_and_squaring_steps=3)
+                    # reference: members holding plain (non-optimisable) tensors, which is what a Mapping of tensors provides
+                    ref_t = GenericSpatialTransform(g, params=False, config=cfg)
+                    with torch.no_grad():
+                        for nm, m in ref_t.named_transforms():
+                            p0 = m.data()
+                            m.data_((1.0 if nm == "scaling" else 0.0) + 0.2 * (torch.rand_like(p0) - 0.5))
+                        mapping = {nm: m.data().detach().clone() for nm, m in ref_t.named_transforms()}
+                        ref_t.update()
+                        x = torch.rand(1, 5, D) * 1.2 - 0.6
+                        yref = ref_t(x)
+                    note("generic-mapping")
+                    try:
+                        t2 = GenericSpatialTransform(g, params=mapping, config=cfg)
+                        with torch.no_grad():
+                            t2.update()
+                            dd = float((t2(x) - yref).abs().max())
+                        if dd > tol:
+                            fail("C06:GenericSpatialTransform.__init__:params-mapping:differs", f"GenericSpatialTransform({model!r}, {aff!r}, params=<Mapping>) differs from the "
+                                 f"transform whose members hold the same tensors by {dd:.3g}", model=model, aff=aff, D=D)
+                    except Exception as e:  # noqa
+                        fail(f"C06:GenericSpatialTransform.__init__:params-mapping:raises:{type(e).__name__}",
+                             f"GenericSpatialTransform(grid, params=<Mapping of member tensors>, transform={model!r}, affine_model={aff!r}) raises "
+                             f"{type(e).__name__}: {str(e)[:160]}", model=model, aff=aff, D=D)
                 except Exception as e:  # noqa
                     fail(f"C06:GenericSpatialTransform:raises:{type(e).__name__}", f"GenericSpatialTransform({model!r}, {aff!r}, D={D}) raises {type(e).__name__}: {str(e)[:160]}", model=model, aff=aff, D=D)
     except ImportError as e:
